@@ -24,7 +24,7 @@ for the library's default ReLU networks, for which an almost-everywhere
 (cell-wise) change of variables would be needed and is not proved; the conditioner-free layers (CDF transforms, permutations,
 LU / QR / SVD) and the 1-D flows have no such hypothesis.  All normalisation theorems are for bijections of the whole line / ℝⁿ
 with a Gaussian base; flows on a box (the executed bounded RQ / quadratic / cubic / linear splines with a uniform or any normalised
-base) are in `Properties/C03B.lean`; no theorem for `Sigmoid` onto `(0,1)`, for a `MADEMoG` base, or with an embedding network (context enters as arbitrary parameters).  `flow_normalised_prog(N)` quantify over
+base) are in `Properties/C03B.lean`; `Sigmoid` onto `(0,1)` / `Logit`, a `MADEMoG` (or any normalised) base and embedding networks are in `Properties/C03M.lean`.  `flow_normalised_prog(N)` quantify over
 abstract diffeomorphisms; the executed statements are the `ExecLayer` ones of `C03ND`.
 -/
 open MeasureTheory
